@@ -8,6 +8,8 @@ package main
 //      handshake (`sched admits delay`, oracle: <= the bound of bounded_refresh), for signature modes x fetch modes x
 //      sources {crl_urls, crl_files, CDP};
 //  (3) fail^k-then-succeed histories (garbage / 500 / bad signature), all locations attempted although one fails;
+//      the same for the FIRST load of a CDP location (both fetch modes); a stream of first-seen distribution points
+//      (forced runs that stamp the finish time) must not keep the lists in force from being refreshed;
 //  (4) Provision: configured CRLs are in force the moment Provision returns; an unloadable one makes it fail.
 
 import (
@@ -178,7 +180,7 @@ func runC15(r *Run) {
 		f()
 	}
 	only := os.Getenv("VERIF_C15_PARTS") // debugging aid: comma separated part indices
-	for i, f := range []func(*Run){c15DecisionProbes, c15Instances, c15Matrix, c15Failures, c15FirstLoadFailures, c15ProvisionCases, c15CleanupInterference, c10LoaderStream} {
+	for i, f := range []func(*Run){c15DecisionProbes, c15Instances, c15Matrix, c15Failures, c15FirstLoadFailures, c15ProvisionCases, c15CleanupInterference, c10LoaderStream, c15NewCdpTraffic} {
 		if only != "" && !strings.Contains(","+only+",", fmt.Sprintf(",%d,", i)) {
 			continue
 		}
@@ -766,9 +768,18 @@ func c15FirstLoadFailures(r *Run) {
 		}
 		defer c15Close(in.v)
 		key := fmt.Sprintf("first-load fetch=%s kind=%s k=%d storage=%s", c.fetch, c.kind, c.k, c.storage)
-		// the first handshake makes the location known (and is the first attempt)
-		if vd0, _ := in.v.Verify(c15Chains(s.listed, ca)); vd0 != "accept" {
-			r.Violate("C15 failing-answer-came-into-force kind="+c.kind, key+": the first handshake (bad answer, lenient mode) was not accepted: "+vd0, nil)
+		// the first handshake makes the location known (and is the first attempt). The validator's own refresh runs
+		// (one right after Provision, then one per interval) may fetch the new location while this handshake is still
+		// under way - between the entry being added and the handshake's own load or lookup - so the handshake can
+		// already see the (k+1)-th, acceptable answer in force and rejects rightly. Only a verdict other than accept
+		// that was given before the acceptable answer had even been requested means a failing answer decided.
+		vd0, _ := in.v.Verify(c15Chains(s.listed, ca))
+		tv0 := time.Now()
+		if at := o.Log.times(s.path); vd0 != "accept" && (len(at) <= c.k || at[c.k].After(tv0)) {
+			r.Violate("C15 failing-answer-came-into-force kind="+c.kind,
+				fmt.Sprintf("%s: the first handshake (lenient mode) was not accepted: %s, although only %d answers (all bad) had been requested by then", key, vd0, len(at)), nil)
+		} else if vd0 != "accept" {
+			r.Count("first-load-history:first-handshake-saw-good-list")
 		}
 		t0 := time.Now()
 		// background: attempts 2..k+1 are refresh runs, one per interval at worst; actively: every handshake is an attempt
@@ -796,6 +807,62 @@ func c15FirstLoadFailures(r *Run) {
 		r.Op(fmt.Sprintf("sched inforce %d", c.k), "old,"+map[bool]string{true: "new", false: "old"}[ok])
 		r.Eval("first-load/"+key, true)
 		r.Count("first-load-history:" + c.fetch + "/" + c.kind)
+	})
+}
+
+// c15NewCdpTraffic: fetch_background and a steady stream of connections whose certificates carry distribution points
+// seen for the first time (a CA with sharded CRLs), one every interval/3. Every such connection starts a forced refresh
+// run, and a run stamps the finish time that makes the next ticks skip: the CRLs which are in force already (a
+// configured url, a CDP learned earlier) must be fetched again within the bound all the same, for as long as the
+// stream lasts.
+func c15NewCdpTraffic(r *Run) {
+	storages := []string{"memory", "disk"}
+	parallel(len(storages), 2, func(i int) {
+		const I = 600
+		o := NewConcOrigin()
+		defer o.Close()
+		ca := NewCA(CAOpts{CN: fmt.Sprintf("C15 new-cdp traffic CA %d", i), EC: true})
+		signers := writeFile(scratchDir("c15-signers"), "ca.pem", certPEM(ca.Cert))
+		name := fmt.Sprintf("nt%d", i)
+		su := c15NewSource("crl_urls", name+"-url", o, ca, "")
+		sc := c15NewSource("cdp", name+"-cdp", o, ca, "")
+		in, err := c15Provision(r, name, I, storages[i], "verify", "fetch_background", []*c15Source{su}, o, ca, signers)
+		if err != nil {
+			r.Violate("C15 provision-failed", "new-cdp traffic: "+err.Error(), nil)
+			return
+		}
+		defer c15Close(in.v)
+		if _, ok := c15WaitVerdict(in.v, sc.listed, ca, "reject", 5*time.Second); !ok {
+			r.Violate("C15 cdp-never-in-force", name+": the CDP CRL of a certificate never came into force after its first use", nil)
+			return
+		}
+		stop, done := make(chan struct{}), make(chan struct{})
+		go func() {
+			defer close(done)
+			defer func() { recover() }()
+			for j := 0; ; j++ {
+				nw := c15NewSource("cdp", fmt.Sprintf("%s-new%d", name, j), o, ca, "")
+				in.v.Verify(c15Chains(nw.other, ca))
+				r.Count("new-cdp-traffic:first-seen-distribution-points")
+				select {
+				case <-stop:
+					return
+				case <-time.After(I / 3 * time.Millisecond):
+				}
+			}
+		}()
+		time.Sleep(I * time.Millisecond) // the stream is under way before anything is published
+		var wg sync.WaitGroup
+		for _, s := range []*c15Source{su, sc} {
+			wg.Add(1)
+			go func(s *c15Source) {
+				defer wg.Done()
+				c15MeasureDelay(r, in, s, "new-cdp-traffic storage="+storages[i], 0)
+			}(s)
+		}
+		wg.Wait()
+		close(stop)
+		<-done
 	})
 }
 
